@@ -31,9 +31,10 @@ const (
 	opChoice // local data choice (map order)
 	opLock   // Mutex.Lock / RWMutex.Lock
 	opRLock  // RWMutex.RLock
+	opShared // access to a shared package-level variable, or a sync/atomic operation
 )
 
-var kindName = [...]string{"send", "recv", "select", "close", "wgwait", "choice", "lock", "rlock"}
+var kindName = [...]string{"send", "recv", "select", "close", "wgwait", "choice", "lock", "rlock", "shared"}
 
 // SelCase describes one communication clause of a select (or the single operand of a send/recv).
 type SelCase struct {
@@ -162,6 +163,7 @@ type Sched struct {
 	ncpu    int
 	starve  string
 	key     uint64
+	shared  vclock // join of the clocks of all shared-memory events so far (inherited by new goroutines)
 	res     Result
 	// hidIdx maps the schedule-independent goroutine name hash to a small int for clocks
 	sorted  []*G
@@ -270,6 +272,36 @@ func Select(site string, hasDefault bool, cases ...SelCase) int {
 	}
 	return s.park(g, &op{kind: opSelect, site: site, cases: cases, def: hasDefault})
 }
+
+// Shared is called before every statement that mentions a package-level variable written after
+// initialisation, and before/after every sync/atomic operation: such statements are visible
+// operations that conflict with everything (a global barrier in the happens-before relation).
+func Shared(site string) {
+	s, g := me()
+	if s == nil {
+		return
+	}
+	s.park(g, &op{kind: opShared, site: site})
+}
+
+// After wraps a value-returning sync/atomic call: a scheduling point after the operation.
+func After[T any](v T, site string) T {
+	Shared(site)
+	return v
+}
+
+// Zero re-initialises a shared variable that has no initialiser.
+func Zero[T any](p *T) {
+	var z T
+	*p = z
+}
+
+var resets []func()
+
+// RegisterReset registers a function restoring the shared package-level variables of one file to
+// their initial values; every controlled run starts by calling all of them (executions must not
+// communicate through process state).
+func RegisterReset(f func()) { resets = append(resets, f) }
 
 // Go replaces the go statement.
 func Go(f func(), site string) {
@@ -580,7 +612,7 @@ func (s *Sched) enabled() []transition {
 			if l := s.lk(o.obj); !l.writer {
 				ts = append(ts, transition{g: g})
 			}
-		case opClose:
+		case opClose, opShared:
 			ts = append(ts, transition{g: g})
 		case opSend, opRecv, opSelect:
 			any := false
@@ -742,7 +774,10 @@ func Run(prefix []int, ncpu int, body func()) *Result {
 // `starve` (and, with a trailing "*", its descendants) is only scheduled when nothing else is enabled.
 // The choices taken are recorded in Trace as usual, so the execution can be replayed with Run.
 func RunStarving(prefix []int, starve string, ncpu int, body func()) *Result {
-	s := &Sched{byGoid: map[int64]*G{}, chans: map[uintptr]*chanState{}, wg: map[interface{}]*wgState{}, locks: map[interface{}]*lockState{}, prefix: prefix, ncpu: ncpu, starve: starve}
+	for _, f := range resets {
+		f()
+	}
+	s := &Sched{shared: vclock{}, byGoid: map[int64]*G{}, chans: map[uintptr]*chanState{}, wg: map[interface{}]*wgState{}, locks: map[interface{}]*lockState{}, prefix: prefix, ncpu: ncpu, starve: starve}
 	s.cond = sync.NewCond(&s.mu)
 	curMu.Lock()
 	if cur != nil {
@@ -859,6 +894,19 @@ func RunStarving(prefix []int, starve string, ncpu int, body func()) *Result {
 			g.clock[g.num]++
 			st.clock = g.clock.copy()
 			s.event(g, opClose, o.site, 0, 0, 0)
+		case opShared:
+			// global barrier: ordered against every event of every goroutine, before and after
+			for _, h := range s.gs {
+				g.clock.join(h.clock)
+			}
+			g.clock[g.num]++
+			for _, h := range s.gs {
+				if h != g && !h.done {
+					h.clock.join(g.clock)
+				}
+			}
+			s.shared.join(g.clock)
+			s.event(g, opShared, o.site, 0, 0, 0)
 		case opWait:
 			if p := s.wg[o.obj]; p != nil {
 				g.clock.join(p.clock)
